@@ -17,6 +17,15 @@ FULL = {
  'C14': 'Statement/holds: every word, every k, every configuration, over constants/tables regenerated from src/broadword.rs.',
  'C18': 'Statement/holds: the array-level model of compute_opt_widths returns (no assertion firing) a valid split that is cost-optimal over ALL splits into at most L positive widths, for the cost function of the property.',
 }
+FULL.update({
+ 'C03': 'Statement/holds: every bit list (incl. no set bit), every configuration, every argument: from_bits succeeds; access, select1, counts; after enable_rank rank1, rank0, predecessor1, successor1 = the list semantics.',
+ 'C04': 'Statement/holds: every universe < 2^64, capacity >= 1, every push history: the built sequence answers select, delta, rank, predecessor, successor, iter(k) (then None forever), binsearch_range / binsearch (any valid index), len, universe for the accepted list; accepted_of_valid.',
+ 'C05': 'Statement/holds: three backings (backing_ok from C01/C02/C07), every non-empty sequence with representable alph_size: new, access, rank_range for every (a,b,v), rank, select; Err for the empty sequence.',
+ 'C06': 'Statement/holds: quantile = k-th element of the sorted slice (None otherwise), intersect = strictly ascending list of exactly the values in more than k non-empty ranges, None iff a range ends beyond n.',
+ 'C12': 'Statement/holds: Err for the empty slice; for every non-empty input with representable sum: from_slice succeeds (no overflow, every prefix sum accepted), access lossless for every index, len, sum, iteration with exact size hints.',
+ 'C16': 'Statement/holds: new(u,0) rejected; every push history: verdicts = greedy acceptance, build reads back exactly the accepted values with universe u; rejected_push_no_effect; extend_spec (stops at the first rejection, keeps earlier items).',
+ 'C17': 'Statement/holds: the six index iterators (list then None forever, exact size hints) from the access theorems; EliasFano::iter(k); unary iterator: next enumerates the set positions >= p then None forever, ANY sequence of skip1/skip0 follows the cursor semantics, exhaustion is permanent, the debug assertion cannot fire.',
+})
 PARTIAL = {
  'C03': 'Theorems so far: select1 through the Elias-Fano builder invariant (C04). The remaining queries are modelled and decided by the correspondence (proof of the Elias-Fano queries in progress).',
  'C04': 'Theorems so far: builder invariant for every history; select = x_k given the select1 answers of the high bits; unary-code counting lemmas; the DArray over the high bits is proved (C02). delta/rank/predecessor/successor/binsearch/iter are modelled and decided by the correspondence (proofs in progress).',
@@ -28,6 +37,8 @@ PARTIAL = {
  'C17': 'Theorems so far: the six index iterators generically (instantiated for BitVector, CompactVector, DacsByte, DacsOpt); the unary iterator (new at every start incl. len, next enumerates the set positions, skip1/skip0 from a skip-established cursor, exhaustion is permanent, the debug assertion cannot fire). The Elias-Fano iterator and the PSEF/WaveletMatrix instances are modelled and decided by the correspondence.',
  'C19': 'Theorems so far: BitVector size formula and bound; size of the Rank9 directory. The other bounds are evaluated on the real size_in_bytes() of worst-case families on every run.',
 }
+for _k in list(PARTIAL):
+    if _k in FULL: del PARTIAL[_k]
 levels = {}; checks = []
 for p in props:
     pid = p['id']
